@@ -117,6 +117,7 @@ class BaseSamples:
             log_prior=self.log_prior,
             log_q=self.log_q,
             xp=np,
+            dtype=dtype,
         )
 
     def to_namespace(self, xp, dtype: Any | str | None = None):
@@ -395,7 +396,7 @@ class BaseSamples:
         """Create a Samples object from a BaseSamples object."""
         xp = kwargs.pop("xp", samples.xp)
         device = kwargs.pop("device", samples.device)
-        dtype = kwargs.pop("dtype", samples.dtype)
+        dtype = kwargs.pop("dtype", None)
         if dtype is not None:
             dtype = resolve_dtype(dtype, xp)
         else:
@@ -408,6 +409,7 @@ class BaseSamples:
             parameters=samples.parameters,
             xp=xp,
             device=device,
+            dtype=dtype,
             **kwargs,
         )
 
@@ -546,26 +548,29 @@ class Samples(BaseSamples):
         return out
 
     def to_namespace(self, xp):
+        # The dtype object belongs to the source namespace: convert it
+        dtype = convert_dtype(self.dtype, xp)
         return self.__class__(
-            x=asarray(self.x, xp, dtype=self.dtype),
+            x=asarray(self.x, xp, dtype=dtype),
             parameters=self.parameters,
-            log_likelihood=asarray(self.log_likelihood, xp, dtype=self.dtype)
+            log_likelihood=asarray(self.log_likelihood, xp, dtype=dtype)
             if self.log_likelihood is not None
             else None,
-            log_prior=asarray(self.log_prior, xp, dtype=self.dtype)
+            log_prior=asarray(self.log_prior, xp, dtype=dtype)
             if self.log_prior is not None
             else None,
-            log_q=asarray(self.log_q, xp, dtype=self.dtype)
+            log_q=asarray(self.log_q, xp, dtype=dtype)
             if self.log_q is not None
             else None,
-            log_evidence=asarray(self.log_evidence, xp, dtype=self.dtype)
+            log_evidence=asarray(self.log_evidence, xp, dtype=dtype)
             if self.log_evidence is not None
             else None,
             log_evidence_error=asarray(
-                self.log_evidence_error, xp, dtype=self.dtype
+                self.log_evidence_error, xp, dtype=dtype
             )
             if self.log_evidence_error is not None
             else None,
+            dtype=dtype,
         )
 
     def to_numpy(self):
@@ -585,6 +590,7 @@ class Samples(BaseSamples):
             log_evidence_error=self.log_evidence_error
             if self.log_evidence_error is not None
             else None,
+            dtype=convert_dtype(self.dtype, np),
         )
 
     def to_dataframe(self, include: list[str] | None = None) -> "pd.DataFrame":
@@ -713,6 +719,7 @@ class SMCSamples(BaseSamples):
             parameters=self.parameters,
             log_evidence=self.log_evidence,
             log_evidence_error=self.log_evidence_error,
+            dtype=self.dtype,
         )
 
     def to_numpy(self):
@@ -733,6 +740,7 @@ class SMCSamples(BaseSamples):
             log_evidence_error=self.log_evidence_error
             if self.log_evidence_error is not None
             else None,
+            dtype=convert_dtype(self.dtype, np),
         )
 
     def __getitem__(self, idx):
